@@ -721,10 +721,10 @@ def generate_cond_once(rng, feat=None):
             r |= g.reach[mid]
         return r
 
-    def block(depth, avoid, pool=pool, maxb=4):
+    def block(depth, avoid, pool=pool, maxb=4, minb=1):
         ncond[0] += 1
         cid = f"c{ncond[0]}"
-        nb = rng.randint(1, maxb)
+        nb = rng.randint(minb, maxb)
         branches = []
         for k in range(nb):
             body = []
@@ -746,7 +746,7 @@ def generate_cond_once(rng, feat=None):
             branches.append({"bid": f"{cid}b{nb}", "cond": None, "body": body})
         return ["Cond", {"cid": cid, "nonblocking": rng.random() < 0.4, "priority": rng.random() < 0.5, "branches": branches}]
 
-    if rng.random() < 0.45:
+    if rng.random() < 0.55:
         # callees with a body of their own: a pool method forwards to a leaf method, or holds a condition() block
         # over leaf methods (leaves have no validate_arguments: known finding F11 is about validated callees)
         leaves = []
@@ -764,9 +764,14 @@ def generate_cond_once(rng, feat=None):
                 mbody[mid] = [g.call(rng.choice(leaves), None)]
                 g.reach[mid] |= reach_of(g._resolve(s["m"], []) for s in _sites(mbody[mid]))
             else:
-                inner = block(0, set(), pool=leaves, maxb=2)
+                shared = rng.random() < 0.5
+                inner = block(0, set(), pool=leaves, maxb=3 if shared else 2, minb=2 if shared else 1)
                 inner[1]["priority"] = False
                 mbody[mid] = [inner]
+                if shared:
+                    # several callers may run the method (and its block) in one cycle
+                    g.mdef[mid].update({"nonex": True, "iw": 0, "val": None})
+                    g.has_val[mid] = False
                 g.reach[mid] |= reach_of(_cond_callees(inner))
         withcond = [m for m in pool if mbody[m] and mbody[m][0][0] == "Cond"]
         plain = [m for m in pool if not mbody[m]]
@@ -835,6 +840,11 @@ def generate_cond_once(rng, feat=None):
         for j in range(int(kind[-1])):
             tree[rng.randrange(2)].append(["T", {"id": f"t{j}", "ready": g.inp() if rng.random() < 0.8 else None,
                                                  "body": [guarded(g.call(entry, None))]}])
+    shared_blocks = [m for m in pool if g.mdef[m].get("nonex") and mbody.get(m) and mbody[m][0][0] == "Cond"]
+    if shared_blocks and rng.random() < 0.7:
+        # a further caller of a nonexclusive method that holds a condition() block
+        tree[rng.randrange(2)].append(["T", {"id": "o9", "ready": g.inp() if rng.random() < 0.6 else None,
+                                             "body": [g.call(rng.choice(shared_blocks), None)]}])
     for j in range(rng.choice([0, 1, 1, 2])):
         body = [g.call(mid, None) for mid in pick(pool, rng.choice([1, 1, 2]), set())]
         tree[rng.randrange(2)].append(["T", {"id": f"o{j}", "ready": g.inp() if rng.random() < 0.8 else None, "body": body}])
